@@ -73,7 +73,7 @@ Definition postn_ok (g : geom) (parts : list (list Z * option (list Z))) : Prop 
   wf_geom g /\ rec_fits g /\ g_shape g <> [] /\
   Forall (fun p => req_ok (g_shape g) (fst p) (part_count (fst p) (snd p)) (ones_like (fst p))) parts.
 
-(* histories of one process (the file is threaded through) *)
+(* histories of one process (the file is threaded through); fx = variant of extract_reqs, see Nonblocking.v *)
 Inductive nbop :=
 | NPostM (k : nkind) (g : geom) (start count : list Z) (stride : option (list Z)) (xaddr : Z) (data : list byte) (sw : bool) (tag : Z)
 | NPostN (k : nkind) (g : geom) (parts : list (list Z * option (list Z))) (xaddr : Z) (data : list byte) (sw : bool) (tag : Z)
@@ -87,16 +87,16 @@ Definition nbop_ok (o : nbop) : Prop :=
   | _ => True
   end.
 
-Definition nb_step (sr : list areq -> list areq) (ss : list seg -> list seg) (sf : nbstate * disk) (o : nbop) : nbstate * disk :=
+Definition nb_step (sr : list areq -> list areq) (ss : list seg -> list seg) (fx : bool) (sf : nbstate * disk) (o : nbop) : nbstate * disk :=
   let '(st, f) := sf in
   match o with
   | NPostM k g s c t xa d sw tag => (fst (fst (post_varm st k g s c t xa d sw tag)), f)
   | NPostN k g ps xa d sw tag => (fst (fst (post_varn st k g ps xa d sw tag)), f)
-  | NWait a => let '(r, f') := wait_one sr ss st a f in (wr_st r, f')
+  | NWait a => let '(r, f') := wait_one sr ss fx st a f in (wr_st r, f')
   | NCancel n ids s0 => (wr_st (cancel st n ids s0), f)
   end.
-Definition nb_run (sr : list areq -> list areq) (ss : list seg -> list seg) (sf : nbstate * disk) (ops : list nbop) : nbstate * disk :=
-  fold_left (nb_step sr ss) ops sf.
+Definition nb_run (sr : list areq -> list areq) (ss : list seg -> list seg) (fx : bool) (sf : nbstate * disk) (ops : list nbop) : nbstate * disk :=
+  fold_left (nb_step sr ss fx) ops sf.
 
 (* the leads a wait flags (= completes) *)
 Definition flagged (leads : list lead) : list lead := filter l_to_free leads.
